@@ -630,6 +630,12 @@ def run(ctx):
         "index option is needed once per element / entry; Go's intermediate struct for a union (one option per branch) is looked through",
         "packages that cog cannot generate or that do not compile are excluded and counted (units_not_observed)",
     ]
+    # IR half of C14 (ConverterIR.tla, ConverterMC.tla): the real ConverterGenerator.FromBuilder judged by TLC
+    from checks import converterir_part
+    part = converterir_part.run_part(ctx)
+    for sig, what, replay, key in part["fails"]:
+        ctx.fail(sig, what, replay, key=key)
+    cov.update(part["coverage"])
     return ctx.finish("exploration", cov, assumptions + batch.assumptions)
 
 
